@@ -245,6 +245,7 @@ func (r *rewriter) instrumentAccesses() {
 	type repl struct {
 		write bool
 		name  string
+		all   bool // *p = T{...}: a write of the whole object
 	}
 	marks := map[ast.Expr]repl{}
 	appendCalls := map[*ast.CallExpr]string{}
@@ -262,6 +263,34 @@ func (r *rewriter) instrumentAccesses() {
 		var e ast.Expr
 		var name string
 		switch x := n.(type) {
+		case *ast.StarExpr:
+			// *p = T{...} with T a struct of this package
+			if len(stack) < 2 {
+				return true
+			}
+			as, ok := stack[len(stack)-2].(*ast.AssignStmt)
+			if !ok {
+				return true
+			}
+			isLhs := false
+			for _, l := range as.Lhs {
+				if l == ast.Expr(x) {
+					isLhs = true
+				}
+			}
+			t := r.info.TypeOf(x)
+			if !isLhs || t == nil {
+				return true
+			}
+			nt, ok := t.(*types.Named)
+			if !ok || nt.Obj().Pkg() == nil || nt.Obj().Pkg().Path() != r.pkg.PkgPath {
+				return true
+			}
+			if _, isStruct := nt.Underlying().(*types.Struct); !isStruct {
+				return true
+			}
+			marks[x] = repl{write: true, name: nt.Obj().Name() + ".*", all: true}
+			return true
 		case *ast.SelectorExpr:
 			sel := r.info.Selections[x]
 			if sel == nil || sel.Kind() != types.FieldVal {
@@ -394,7 +423,7 @@ func (r *rewriter) instrumentAccesses() {
 				write = true
 			}
 		}
-		marks[e] = repl{write, name}
+		marks[e] = repl{write: write, name: name}
 		return true
 	})
 	if len(marks) == 0 && len(appendCalls) == 0 && len(sliceArgs) == 0 {
@@ -423,6 +452,12 @@ func (r *rewriter) instrumentAccesses() {
 		}
 		m, ok := marks[e]
 		if !ok {
+			return true
+		}
+		if m.all {
+			se := e.(*ast.StarExpr)
+			c.Replace(&ast.StarExpr{X: call(rt("WrAll"), se.X, &ast.BasicLit{Kind: token.STRING, Value: strconv.Quote(m.name)})})
+			r.changed, r.needRT = true, true
 			return true
 		}
 		fn := "Rd"
